@@ -489,3 +489,102 @@ pub(crate) fn k_struct_sub_rejects() {
     std::mem::forget(res);
     vk_assert!(badp == (p == 15), "structural parser rejects exactly the reserved QLP precision code 1111 (RFC 9639 9.2.6)");
 }
+
+// ---- structural read_subframe on a FIXED subframe: fields == RFC 9639 9.2.5 ----
+macro_rules! k_struct_sub_parse_fixed {
+    ($name:ident, $order:expr, $n:expr, $kind:expr) => {
+        #[kani::proof]
+        #[kani::unwind(8)]
+        pub(crate) fn $name() {
+            const BPS: u32 = 12;
+            const ORDER: usize = $order;
+            const N: usize = $n; // residuals
+            let wu: [i16; 4] = kani::any();
+            let res: [i32; 4] = kani::any();
+            let param: u32 = kani::any();
+            kani::assume(param <= 31);
+            let mut r64 = [0i64; 4];
+            let mut i = 0;
+            while i < 4 { r64[i] = res[i] as i64; kani::assume(wu[i] >= -2048 && wu[i] < 2048); i += 1; }
+            kani::assume(specenc::partition_valid($kind, 0, param, &r64[..N]));
+            let mut tape: Tape<24> = Tape::new();
+            specenc::gen_subframe_header(&mut tape, specenc::t_fixed(ORDER as u32), false, 0);
+            let mut i = 0;
+            while i < ORDER { tape.preload(K_S, BPS, wu[i] as i64 as u64); i += 1; }
+            specenc::gen_residuals(&mut tape, 0, 0, ORDER, &r64[..N], &[$kind], &[param]);
+            tape.record = false;
+            tape.failed = true;
+            let out = <Subframe<i32> as FromBitStreamUsing>::from_reader(&mut tape, ((ORDER + N) as u16, SignedBitCount::new::<BPS>()));
+            let ok = match &out {
+                Ok(Subframe::Fixed { order, warm_up, residuals: Residuals::Method0 { partitions }, wasted_bps }) => {
+                    let mut ok = *order as usize == ORDER && warm_up.len() == ORDER && *wasted_bps == 0 && partitions.len() == 1;
+                    let mut i = 0;
+                    while i < ORDER { ok = ok && warm_up.len() > i && warm_up[i] == wu[i] as i32; i += 1; }
+                    if partitions.len() == 1 {
+                        ok = ok && match &partitions[0] {
+                            ResidualPartition::Standard { rice, residuals } => matches!($kind, specenc::PKind::Rice) && u32::from(*rice) == param && residuals.len() == N && { let mut e = true; let mut j = 0; while j < N { e = e && residuals.len() > j && residuals[j] == res[j]; j += 1; } e },
+                            ResidualPartition::Escaped { escape_size, residuals } => matches!($kind, specenc::PKind::Escape) && u32::from(*escape_size) == param && residuals.len() == N && { let mut e = true; let mut j = 0; while j < N { e = e && residuals.len() > j && residuals[j] == res[j]; j += 1; } e },
+                            ResidualPartition::Constant { partition_len } => matches!($kind, specenc::PKind::Zero) && *partition_len == N,
+                        };
+                    }
+                    ok
+                }
+                _ => false,
+            };
+            std::mem::forget(out);
+            vk_undecided!(!tape.shape_mismatch && !tape.overflow, "structural parser read other fields than RFC 9639 9.2.5 / 9.2.7 list");
+            vk_assert!(ok && tape.consumed_all(), "structural parser: FIXED subframe = warm-up samples then one residual partition whose kind, parameter and residuals are those coded (RFC 9639 9.2.5, 9.2.7)");
+        }
+    };
+}
+k_struct_sub_parse_fixed!(k_struct_sub_parse_fixed_o1_rice2, 1, 2, specenc::PKind::Rice);
+k_struct_sub_parse_fixed!(k_struct_sub_parse_fixed_o2_esc2, 2, 2, specenc::PKind::Escape);
+k_struct_sub_parse_fixed!(k_struct_sub_parse_fixed_o0_zero3, 0, 3, specenc::PKind::Zero);
+
+// ---- structural read_subframe on an LPC subframe (order 1) and on a two-partition FIXED subframe ----
+#[kani::proof]
+#[kani::unwind(8)]
+pub(crate) fn k_struct_sub_parse_lpc_o1_rice2() {
+    const BPS: u32 = 12;
+    let wu: i16 = kani::any();
+    kani::assume(wu >= -2048 && wu < 2048);
+    let res: [i32; 2] = kani::any();
+    let r64 = [res[0] as i64, res[1] as i64];
+    let param: u32 = kani::any();
+    kani::assume(param <= 31);
+    kani::assume(specenc::partition_valid(specenc::PKind::Rice, 0, param, &r64));
+    let precision: u32 = kani::any();
+    kani::assume(precision >= 1 && precision <= 15);
+    let shift: u32 = kani::any();
+    kani::assume(shift <= 15);
+    let coeff: i16 = kani::any();
+    kani::assume(spec::fits(coeff as i64, precision));
+    let mut tape: Tape<24> = Tape::new();
+    specenc::gen_subframe_header(&mut tape, specenc::t_lpc(1), false, 0);
+    tape.preload(K_S, BPS, wu as i64 as u64);
+    tape.preload(K_U, 4, (precision - 1) as u64);
+    tape.preload(K_S, 5, shift as u64);
+    tape.preload(K_S, precision, coeff as i64 as u64);
+    specenc::gen_residuals(&mut tape, 0, 0, 1, &r64, &[specenc::PKind::Rice], &[param]);
+    tape.record = false;
+    tape.failed = true;
+    let out = <Subframe<i32> as FromBitStreamUsing>::from_reader(&mut tape, (3u16, SignedBitCount::new::<BPS>()));
+    let ok = match &out {
+        Ok(Subframe::Lpc { order, warm_up, precision: p, shift: s, coefficients, residuals: Residuals::Method0 { partitions }, wasted_bps }) => {
+            order.get() == 1 && warm_up.len() == 1 && warm_up[0] == wu as i32 && u32::from(*p) == precision && *s == shift
+                && coefficients.len() == 1 && coefficients[0] == coeff as i32 && *wasted_bps == 0 && partitions.len() == 1
+                && match &partitions[0] {
+                    ResidualPartition::Standard { rice, residuals } => u32::from(*rice) == param && residuals.len() == 2 && residuals[0] == res[0] && residuals[1] == res[1],
+                    _ => false,
+                }
+        }
+        _ => false,
+    };
+    std::mem::forget(out);
+    vk_undecided!(!tape.shape_mismatch && !tape.overflow, "structural parser read other fields than RFC 9639 9.2.6 / 9.2.7 list");
+    vk_assert!(ok && tape.consumed_all(), "structural parser: LPC subframe = warm-up, precision - 1, shift, coefficients, residual partition, each field as coded (RFC 9639 9.2.6)");
+}
+
+// a two-partition instance (block 4, order 1, partition order 1, Escape + Rice) was built and removed: CBMC runs out of memory
+// in the nested collect::<Result<Vec<_>, _>>() of the partition loop; the partition-length rule is covered by K-struct_res_reject_*
+// (illegal orders) and, for the decoder that shares the rule, by K-res_valid_*.
